@@ -40,9 +40,11 @@ func NewTermFormatter(options TermFormatterOptions) terms.Formatter {
 func (tf *termFormatter) FormatTerm(t rdf.Term) string {
 	switch t := t.(type) {
 	case rdf.IRI:
-		if pr, ok := tf.prefixes.CompactPrefix(string(t)); ok {
-			if local, ok := format_PN_LOCAL(pr.Reference); ok {
-				return pr.Prefix + ":" + local
+		if tf.prefixes != nil {
+			if pr, ok := tf.prefixes.CompactPrefix(string(t)); ok {
+				if local, ok := format_PN_LOCAL(pr.Reference); ok {
+					return pr.Prefix + ":" + local
+				}
 			}
 		}
 
